@@ -511,6 +511,7 @@ pub fn nested_trace(args: &[String]) -> i32 {
         let erased = rng.random::<bool>();
         let res = guarded(|| {
             let node = build(&tree).expect("small weights");
+            #[cfg(feature = "optional_flavours")]
             let r = if erased {
                 // the type-erased form of the whole combination, behind a Box
                 let b: Box<dyn ec_core::operator::selector::DynSelector<Pop, NodeErr>> = Box::new(node);
@@ -518,6 +519,8 @@ pub fn nested_trace(args: &[String]) -> i32 {
             } else {
                 node.select(&pop, &mut rng).map(|i| locate(&pop, i))
             };
+            #[cfg(not(feature = "optional_flavours"))]
+            let r = node.select(&pop, &mut rng).map(|i| locate(&pop, i));
             match r {
                 Ok(Some(i)) => json!({"k": "member", "i": i}),
                 Ok(None) => json!({"k": "foreign"}),
